@@ -259,6 +259,34 @@ def generate(tier, seed, ctx):
         reqs = ["%s %s %s" % (op, hx(x), hx(a)) for x in pts]
         R += reqs
         ctx["mono"].append((op, a, pts, reqs))
+    # vanishing arguments x small shape: P(x,a) ~ x^a/Gamma(a+1) is NOT small for a tiny a (P(1e-310,1e-3) = 0.49), so the
+    # whole range of positive doubles down to the denormals matters: x denormal, around DBL_MIN, tiny normal; a in [1e-6, 0.05]
+    def tiny_x():
+        c = rng.random()
+        if c < 0.35:
+            return rng.randint(1, 2 ** 52 - 1) * 5e-324                       # denormal
+        if c < 0.5:
+            return rng.choice([5e-324, 1e-323, math.nextafter(DBL_MIN, 0), DBL_MIN, math.nextafter(DBL_MIN, 1), 2 * DBL_MIN, 1e-310, 1e-315, 1e-320])
+        if c < 0.75:
+            return DBL_MIN * 2.0 ** rng.uniform(-40, 40)
+        return 10.0 ** rng.uniform(-323, -100)
+    for j in range(600 if th else 150):
+        a = 10.0 ** rng.uniform(-6, math.log10(0.05)) if j % 5 else rng.choice([1e-6, 1e-3, 0.02, 0.039, 0.05, 0.5, 1.0])
+        R.append("%s %s %s" % (("c06.gammap", "c06.gammaq", "c06.uplow")[j % 3], hx(tiny_x()), hx(a)))
+    for g in range(40 if th else 10):
+        a = 10.0 ** rng.uniform(-6, math.log10(0.05))
+        pts = sorted({0.0, 5e-324, math.nextafter(DBL_MIN, 0), DBL_MIN, math.nextafter(DBL_MIN, 1), 1e-300, 1e-200, 1e-100, 1e-10, 1.0}
+                     | {tiny_x() for _ in range(8)})
+        op = "c06.gammaq" if g % 2 == 0 else "c06.gammap"
+        reqs = ["%s %s %s" % (op, hx(x), hx(a)) for x in pts]
+        R += reqs
+        ctx["mono"].append((op, a, pts, reqs))
+    for j in range(120 if th else 30):     # inverse: preimage a normal double, but close to DBL_MIN (the iteration visits tiny x)
+        a = 10.0 ** rng.uniform(-3, math.log10(0.05))
+        x0 = DBL_MIN * 2.0 ** rng.uniform(3, 200)
+        pp = float(ref_P(Fraction(x0), Fraction(a)))
+        if 1e-12 < pp < 1 - 1e-12:
+            R.append("%s %s %s" % ("c06.invp", hx(pp), hx(a)) if j % 2 else "%s %s %s" % ("c06.invq", hx(1 - pp), hx(a)))
     # internal evaluators called directly, on both sides of the switch-overs (also a > 100)
     for _ in range(300 if th else 60):
         a = 10.0 ** rng.uniform(-3, 3.3 if th else 3) if rng.random() < 0.7 else rng.uniform(90, 400)
